@@ -171,21 +171,21 @@ size_t Buffer::fetch(void *p_buff, size_t buff_size)
 //! 不是完全复制，只复制有效的数据
 void Buffer::cloneFrom(const Buffer &other)
 {
-    CHECK_DELETE_RESET_ARRAY(buffer_ptr_);
-
     //! 如果 other 有可读数据，则要根据可读大小分配空间
-    if (other.readableSize() > 0) {
-        uint8_t *p_buff = new uint8_t[other.readableSize()];
+    //! 注意：先分配新空间，成功后才释放旧空间。否则一旦 new 抛出异常，
+    //!       本对象就处于“没有空间却保留着旧的大小与读写位置”的状态
+    const size_t new_size = other.readableSize();
+    uint8_t *p_buff = nullptr;
+    if (new_size > 0) {
+        p_buff = new uint8_t[new_size];
         TBOX_ASSERT(p_buff != nullptr);
-        ::memcpy(p_buff, other.readableBegin(), other.readableSize());
-        buffer_ptr_  = p_buff;
-        buffer_size_ = write_index_ = other.readableSize();
-
-    } else {
-        buffer_ptr_  = nullptr;
-        buffer_size_ = write_index_ = 0;
+        ::memcpy(p_buff, other.readableBegin(), new_size);
     }
 
+    CHECK_DELETE_RESET_ARRAY(buffer_ptr_);
+
+    buffer_ptr_  = p_buff;
+    buffer_size_ = write_index_ = new_size;
     read_index_ = 0;
 }
 
